@@ -373,10 +373,8 @@ func (a *Adapter) ApplyMsg(ctx sdk.Context, op graph.Op) error {
 // Apply implements graph.Adapter.
 func (a *Adapter) Apply(ctx sdk.Context, op graph.Op) (sdk.Context, string) {
 	if op.Name() == "Tick" {
+		// a failing block halts the chain at the state before that block (each block is atomic)
 		cur := ctx
-		// all k blocks or none: a failing block halts the chain at the state before the first block
-		cctx, write := ctx.CacheContext()
-		cur = cctx
 		for i := int64(0); i < op.Int("n"); i++ {
 			next, err := a.EndBeginBlock(cur)
 			if err != nil {
@@ -384,12 +382,11 @@ func (a *Adapter) Apply(ctx sdk.Context, op graph.Op) (sdk.Context, string) {
 				if os.Getenv("VERIF_DEBUG") != "" {
 					fmt.Printf("DEBUG Tick at height %d -> %v\n", cur.BlockHeight(), err)
 				}
-				return ctx, "rej"
+				return cur, "rej"
 			}
 			cur = next
 		}
-		write()
-		return ctx.WithBlockHeight(cur.BlockHeight()).WithBlockTime(cur.BlockTime()), "ok"
+		return cur, "ok"
 	}
 	if err := a.ApplyMsg(ctx, op); err != nil {
 		if os.Getenv("VERIF_DEBUG") != "" {
